@@ -165,6 +165,13 @@ def expected_cookie(c):
 
 
 def run(sim):
+    # process-global mutable state: the header-name canonicalisation cache survives between runs in a warm
+    # worker; each run starts from an empty one so that a run is a pure function of its seed
+    try:
+        from twisted.web import http_headers as _hh
+        _hh._nameEncoder._canonicalHeaderCache.clear()
+    except AttributeError:
+        pass
     nreq = sim.draw_int(1, 4, "nreq")
     # CR/LF in a reason phrase (the precondition of the known reason-line-break defect) only in 1 run out of 8, so that the
     # other clauses are exercised on full-length runs whether or not that defect is present
@@ -250,6 +257,16 @@ def run(sim):
             sim.event("header", idx, op, repr(name), "refused" if raised else "accepted")
             sim.check("invalid-name-accepted", valid or raised is not None, op, lambda: "name %r was accepted" % (name,))
             sim.check("valid-name-refused", not valid or raised is None, op, lambda: "name %r value %r raised %s" % (name, value, raised))
+            if raised is not None and not valid:
+                # an application that catches the refusal and retries (or a second request reflecting the same
+                # name) must be refused again: refusal must not depend on the name having been seen before
+                try:
+                    req.responseHeaders.addRawHeader(name, value)
+                    again = None
+                except Exception as e:
+                    again = type(e).__name__
+                sim.probe("invalid_name_retried")
+                sim.check("invalid-name-accepted", again is not None, "retry", lambda: "name %r was refused at first and accepted when used again" % (name,))
             if raised is None:
                 key = (name if isinstance(name, bytes) else name.encode("latin-1")).lower()
                 nv = http1.norm_value(_b(value))
